@@ -79,8 +79,8 @@ def reaching_defs(cfgnode, name, limit=600):
         if steps > limit:
             return None
         a = n.ast
-        if n.kind == "stmt" and isinstance(a, ast.Assign) and len(a.targets) == 1 and isinstance(a.targets[0], ast.Name) \
-                and a.targets[0].id == name:
+        if n.kind == "stmt" and isinstance(a, ast.Assign) and all(isinstance(t, ast.Name) for t in a.targets) \
+                and any(t.id == name for t in a.targets):
             found.append(n)
             continue
         if n.kind in ("stmt", "fornext", "with") and a is not None and not isinstance(a, (ast.If, ast.While, ast.Try)):
@@ -114,6 +114,18 @@ class Evaluator:
         finally:
             self.depth -= 1
 
+    def _path_guards(self, d, use, others):
+        """guards every path from definition d to the use takes when it avoids the other definitions of the name"""
+        reach = self.cfg.reach_from(d, avoid=others, labels_excluded=("exc",))
+        out = []
+        for g in self.cfg.nodes:
+            if g.kind != "guard" or g.id not in reach:
+                continue
+            r2 = self.cfg.reach_from(d, avoid=list(others) + [g], labels_excluded=("exc",))
+            if use.id not in r2:
+                out.append((g.cond, g.outcome))
+        return tuple(out)
+
     def one(self, e, at):
         r = self.ev(e, at)
         vals = {v for v, g in r}
@@ -133,6 +145,8 @@ class Evaluator:
             out = []
             for d in defs:
                 gs = tuple((c, o) for c, o, _ in self.cfg.guards_of(d))
+                if len(defs) > 1:
+                    gs = gs + self._path_guards(d, at, [x for x in defs if x is not d])
                 for v, g in self.ev(d.ast.value, d):
                     out.append((v, g + gs))
             return out
@@ -162,6 +176,8 @@ class Evaluator:
                 sign = 1 if isinstance(e.op, ast.Add) else -1
                 if isinstance(l[1], int) and isinstance(r[1], int):
                     return [(V("int", l[1] + sign * r[1]), ())]
+                if isinstance(l[1], str) and l[1].startswith("search:") and isinstance(r[1], int):
+                    return [(V("int", "%s%+d" % (l[1], sign * r[1])), ())]
                 if l[1] == "L" and isinstance(r[1], int):
                     k = sign * r[1]
                     return [(V("int", "L" if k == 0 else "L%+d" % k), ())]
@@ -184,6 +200,10 @@ class Evaluator:
                 if v[0] == "common":
                     return [(V("int", "L"), ())]
                 raise _Undecided("len of %s" % show(v))
+            if isinstance(fn, ast.Attribute) and fn.attr in ("index", "count") and len(e.args) >= 1:
+                base = self.one(fn.value, at)
+                if base[0] in ("path", "slice", "common"):
+                    return [(V("int", "search:%s" % norm(e)), ())]
             callee = self._resolve(e)
             if callee is not None:
                 args = [self.one(a, at) for a in e.args]
@@ -241,6 +261,15 @@ class Evaluator:
                 if a[0] == "path" and b[0] == "path":
                     self._check_pairing(self.f, e, g.target, True, list(g.ifs), e.elt, "the common part in %s" % self.f.qual)
                     return [(V("common", a[1], b[1]), ())]
+            # a selection of (a part of) a path by a per-element filter
+            if isinstance(g.target, ast.Name) and isinstance(e.elt, ast.Name) and e.elt.id == g.target.id:
+                try:
+                    src = self.one(it, at)
+                except _Undecided:
+                    src = None
+                if src is not None and src[0] in ("path", "slice"):
+                    who = src[1]
+                    return [(V("filtered", who, " and ".join(norm(c) for c in g.ifs) or "no test"), ())]
             raise _Undecided("comprehension `%s`" % norm(e))
         raise _Undecided("expression `%s`" % norm(e))
 
@@ -302,6 +331,22 @@ class Evaluator:
             pair, where = (lp.target, lp.iter), lp
             ifs = [s for s in lp.body if isinstance(s, ast.If)]
             apps = [c for c in ast.walk(lp) if isinstance(c, ast.Call) and isinstance(c.func, ast.Attribute) and c.func.attr == "append"]
+            if len(ifs) == 1 and len(lp.body) == 2 and lp.body[0] is ifs[0] and len(apps) == 1 and not ifs[0].orelse \
+                    and len(ifs[0].body) == 1 and isinstance(ifs[0].body[0], ast.Break) \
+                    and isinstance(lp.body[1], ast.Expr) and lp.body[1].value is apps[0]:
+                # `if <differ>: break` then append: the pair is kept when the test is false
+                t = ifs[0].test
+                if isinstance(t, ast.Compare) and len(t.ops) == 1 and isinstance(t.ops[0], ast.IsNot):
+                    keep = ast.Compare(left=t.left, ops=[ast.Is()], comparators=t.comparators)
+                else:
+                    keep = ast.UnaryOp(op=ast.Not(), operand=t)
+                ast.copy_location(keep, t)
+                ast.fix_missing_locations(keep)
+                tgt, it = lp.target, lp.iter
+                zipped = isinstance(it, ast.Call) and isinstance(it.func, ast.Name) and it.func.id == "zip" and len(it.args) == 2 \
+                    and sorted(norm(a) for a in it.args) == sorted(ps)
+                self._check_pairing(h, lp, tgt, zipped, [keep], apps[0].args[0] if apps[0].args else None, "the common prefix")
+                return
             if len(ifs) != 1 or len(lp.body) != 1 or len(apps) != 1 or not any(a is apps[0] for s in ifs[0].body for a in ast.walk(s)):
                 raise _Undecided("loop form of %s" % h.qual)
             # an else branch may only stop the scan (prefix semantics)
@@ -416,6 +461,10 @@ def run(ctx):
                                  construct="walk: %s = %s" % (role, show(v)))
                     else:
                         ctx.inst("K2", w, e, "%s = %s" % (role, show(v)))
+                elif v[0] == "filtered":
+                    ctx.viol("K2", w, e, "%s component is a per-element selection of %s's path (kept under `%s`), not the contiguous part "
+                             "behind the common prefix: a node on the private part that passes/fails the test by equality is "
+                             "dropped or kept wrongly" % (role, v[1], v[2]), construct="walk: %s filtered by %s" % (role, v[2]))
                 elif v[0] == "empty":
                     okg = False
                     for c, o in guards:
